@@ -30,11 +30,11 @@ func runC02(r *Run) {
 	var ts []Spec
 	if !r.Thorough() {
 		for _, sc := range []string{"map-grow-lim", "map-grow-desc"} {
-			ts = append(ts, TrajSpecs(r.ID, sc, 64, 1, 65, 3, 1, 256, []string{"t", "limM"}, tor)...)
-			ts = append(ts, TrajSpecs(r.ID, sc, 64, 2, 14, 4, 2, 256, []string{"t", "limM"}, tor)...)
+			ts = append(ts, TrajSpecs(r.ID, sc, 90, 1, 91, 3, 1, 256, []string{"t", "limM"}, tor)...)
+			ts = append(ts, TrajSpecs(r.ID, sc, 90, 2, 14, 4, 2, 256, []string{"t", "limM"}, tor)...)
 		}
 		for _, sc := range []string{"map-drain-front", "map-drain-back", "map-shrink-overwrite"} {
-			ts = append(ts, TrajSpecs(r.ID, sc, 108, 55, 109, 3, 1, 256, []string{"t", "limM"}, tor)...)
+			ts = append(ts, TrajSpecs(r.ID, sc, 160, 81, 161, 3, 1, 256, []string{"t", "limM"}, tor)...)
 		}
 	} else {
 		for _, T := range []uint32{256, 512} {
